@@ -235,6 +235,7 @@ func rpScenario(c *choice.Ctx, rep *report.R, depth int) {
 		wait()
 		check()
 	}
+	selOff()
 	// wind down: the held goroutine goes on, every upstream query is answered, request deadlines pass
 	if resume() {
 		wait()
